@@ -289,7 +289,7 @@ impl TryFrom<MetricValue> for TemplateDefinition {
                 ));
             }
             // [tck-id-payloads-template-definition-is-definition] A Template Definition MUST have is_definition set to true.
-            if template.is_definition.unwrap_or(false) {
+            if !template.is_definition.unwrap_or(false) {
                 return Err(FromValueTypeError::InvalidValue(
                     "Template payload violates tck-id-payloads-template-definition-is_definition"
                         .into(),
